@@ -76,7 +76,7 @@ def run_program(prog, seed, policy, base, family="corpus", replay=None):
         res["status"] = "harness-failed"
         return res
     impl = open(trace).read().splitlines()
-    nomodel = "nomodel=1" in open(prog).read().split("\n", 1)[0]
+    nomodel = any(l.startswith("config") and "nomodel=1" in l for l in open(prog).read().splitlines())
     if nomodel:
         # scenarios with user code the model does not cover (panicking destructors): the real crate runs
         # under the scheduler and only the oracles judge the trace
